@@ -542,7 +542,28 @@ class Interp:
                 self.assign(t, v, env, depth)
         elif isinstance(s, ast.AugAssign):
             cur = self.expr(ast.copy_location(_load(s.target), s.target), env, depth)
-            v = self.binop(s.op, cur, self.expr(s.value, env, depth), s)
+            rhs = self.expr(s.value, env, depth)
+            v = None
+            curf = self.force(cur)
+            if isinstance(s.op, ast.Add):
+                # `x += y` on a mutable sequence changes the object x names (every other name of it sees the change)
+                m_ = self.model_of(curf) if self.models else None
+                if m_ is not None and hasattr(m_, "iadd"):
+                    v = m_.iadd(self, curf, rhs)
+                elif curf[0] == "list" and not (len(curf) > 3 and curf[3] == "tuple"):
+                    items = self.iterate(self.force(rhs))
+                    if items is not None:
+                        if self.on_write is not None:
+                            self.on_write("call", curf, "+=", s)
+                        curf[1].extend(items)
+                        v = curf
+                elif curf[0] == "c" and isinstance(curf[1], bytearray) and rhs[0] == "c" and isinstance(rhs[1], (bytes, bytearray)):
+                    if self.on_write is not None:
+                        self.on_write("call", curf, "+=", s)
+                    curf[1].extend(rhs[1])
+                    v = curf
+            if v is None:
+                v = self.binop(s.op, cur, rhs, s)
             self.assign(s.target, v, env, depth)
         elif isinstance(s, ast.AnnAssign):
             if s.value is not None:
@@ -1685,9 +1706,9 @@ class Interp:
             return ("bound", b, name)
         if k == "atom":
             return ("bound", b, name)
-        if k == "dict" and name in ("items", "keys", "values", "get", "update", "pop", "setdefault", "copy"):
+        if k == "dict" and name in ("items", "keys", "values", "get", "update", "pop", "setdefault", "copy", "__getitem__", "__contains__", "__len__"):
             return ("bound", b, name)
-        if k == "list" and name in ("append", "extend", "index", "pop", "insert", "remove", "sort", "reverse", "count", "copy"):
+        if k == "list" and name in ("append", "extend", "index", "pop", "insert", "remove", "sort", "reverse", "count", "copy", "__getitem__", "__contains__", "__len__"):
             return ("bound", b, name)
         if k == "bufobj":
             return ("bound", b, name)
@@ -1823,7 +1844,9 @@ class Interp:
         if isinstance(f, ast.Name):
             h = self.hooks.get("builtin:" + f.id)
             if h is not None:
-                return h(self, e, args, kwargs, env, depth)
+                hv_ = h(self, e, args, kwargs, env, depth)
+                if hv_ is not None:
+                    return hv_
             b = self.builtin(f.id, e, args, kwargs, env, depth)
             if b is not None:
                 return b
@@ -1959,7 +1982,7 @@ class Interp:
                 except Exception:
                     pass
             return ("fn", name, list(args))
-        if name in ("list", "tuple", "set", "sorted", "reversed"):
+        if name in ("list", "tuple", "set", "frozenset", "sorted", "reversed"):
             if a0 is None:
                 return ("list", [])
             items = self.iterate(a0)
@@ -1974,7 +1997,7 @@ class Interp:
                 if len(items) <= 1:
                     return ("list", items)
                 return ("fn", "sorted", list(items))        # an order the interpreter does not know
-            if items is not None and name == "set":
+            if items is not None and name in ("set", "frozenset"):
                 seen_, out_ = [], []
                 for x in items:
                     if x not in seen_:
@@ -2165,6 +2188,16 @@ class Interp:
     def method_call(self, recv, name, args, kwargs, env, depth, e):
         recv = self.force(recv, deref=True)
         k = recv[0]
+        if k in ("list", "dict", "c") and name in ("__getitem__", "__contains__", "__len__") and not (k == "c" and not isinstance(recv[1], (str, bytes, bytearray, tuple, list, dict))):
+            # the operator forms called by name (`table.__getitem__` handed to map)
+            if name == "__getitem__" and len(args) == 1:
+                return self.getitem(recv, args[0], env, depth, e)
+            if name == "__contains__" and len(args) == 1:
+                return ("c", bool(self.contains(recv, args[0], "contains")))
+            if name == "__len__" and not args:
+                r_ = self.builtin("len", e, [recv], {}, env, depth)
+                if r_ is not None:
+                    return r_
         if self.on_write is not None and name in MUTATORS and (k in ("list", "dict") or (k == "c" and isinstance(recv[1], (bytearray, list, dict, set)))):
             self.on_write("call", recv, name, e)
         if self.sym is not None and k == "bufobj":
